@@ -440,6 +440,11 @@ class Interp(Engine):
                 return Closure(c['classmethods'][name], None, selfobj=TypeTag(o.cls), cls=o.cls)
             if name in c['consts']:
                 return c['consts'][name]
+            slots = c['consts'].get('__slots__') or []
+            if name in slots and getattr(o, 'modelled_state', False):
+                # the class declares state that the symbolic pre-state (class invariant of DESIGN §3) does not describe:
+                # nothing can be concluded about code that reads it - undecided, never a violation
+                raise Unsupported(f"{o.cls}.{name}: state attribute outside the modelled class invariant")
             if '__getattr__' in c['methods']:
                 return s.call_method(o, '__getattr__', [name], {})
             raise PyRaise('AttributeError', note=f"{o.cls}.{name}")
